@@ -379,9 +379,12 @@ def correspond(pid, spec, tier, seed):
             if m.startswith("DECODE-ERROR") or m in ("TABLE-MISS", "bad-op") or m.startswith("unknown op"):
                 stats["machinery"].append({"profile": prof, "index": i, "model": m, "case": decode_line(c, 600)})
                 continue
-            if m == "unsupported":
+            # outside the model's guard: no comparison with the model, but the oracles on the
+            # implementation alone (expect.txt `!…`, Python oracles) still judge the case
+            outside = m == "unsupported"
+            if outside:
                 stats["guard_skipped"] += 1
-                continue
+                m = a
             a2, m2 = (canon(a), canon(m)) if canon else (a, m)
             key = a.split(" ")[0:3]
             k = " ".join(key[:1] + ([key[2]] if key[0] == "failed" and len(key) > 2 else []))
